@@ -344,6 +344,12 @@ func runC08(c *Ctx) {
 				badUpload{"form-md5-wrong", "reject-if-integrity", formReq(otherMD5, "Content-MD5")},
 				badUpload{"form-md5-not-base64", "reject-if-integrity", formReq("!!!not base64!!!", "Content-MD5")},
 				badUpload{"form-md5-empty", "reject-if-integrity", formReq("", "Content-MD5")},
+				// field names are matched without regard to letter case, like the header they stand for
+				badUpload{"form-md5-wrong-lower-case-name", "reject-if-integrity", formReq(otherMD5, "content-md5")},
+				badUpload{"form-md5-wrong-upper-case-name", "reject-if-integrity", formReq(otherMD5, "CONTENT-MD5")},
+				badUpload{"form-md5-wrong-canonical-name", "reject-if-integrity", formReq(otherMD5, "Content-Md5")},
+				badUpload{"form-md5-not-base64-lower-case-name", "reject-if-integrity", formReq("!!!not base64!!!", "content-md5")},
+				badUpload{"form-md5-correct-lower-case-name", "accept", func(b, k string, body []byte) *drv.Req { return formReq(drv.MD5B64(body), "content-md5")(b, k, body) }},
 				// a complete form, but the request declares five bytes more than arrive
 				badUpload{"form-short-body", "reject", func(b, k string, body []byte) *drv.Req {
 					fb, ct := formUpload(k, body)
